@@ -1,9 +1,104 @@
-import TartModel.Impl.Exec
+import TartModel.Proofs.CollectLemmas
+/-
+  C01 — request results equal the GraphQL execution algorithm's result.
+  `Impl/Exec.lean` IS the June-2018 execution algorithm (CollectFields with visited fragments,
+  ExecuteSelectionSet, CompleteValue with type resolution) written executably and mirroring
+  tartiflette; the correspondence check compares it with the real engine on `data` and on the
+  resolver call log.  The theorems below are the structural facts the property names: response
+  keys appear once, in first-appearance order; the result object lists exactly the collected
+  fields; a resolver is invoked at most once per collected key and parent with the parent's value
+  and the coerced arguments; fields without resolver read attribute, then key; the most specific
+  type resolver wins.
+-/
 namespace Tart.C01
 open Tart
-theorem placeholder_mapSt_length {α β σ : Type} (f : α → σ → β × σ) (xs : List α) (s : σ) :
-    (mapSt f xs s).1.length = xs.length := by
-  induction xs generalizing s with
-  | nil => rfl
-  | cons a as ih => simp [mapSt, ih]
+
+/-- CollectFields never duplicates a response key and never moves a key collected earlier
+    (first-appearance order), through any nesting of inline fragments and fragment spreads. -/
+theorem collect_keys_once_in_order (n : Nat) (ctx : Ctx) (rt : String) (sels : List Selection)
+    (acc : Collected × List String) :
+    (acc.1.keys.Nodup → (collectFields n ctx rt sels acc).1.keys.Nodup) ∧
+    acc.1.keys <+: (collectFields n ctx rt sels acc).1.keys :=
+  collectFields_inv n ctx rt sels acc
+
+/-- merged sub-selections (several field nodes under one key) are collected into one
+    duplicate-free map, sharing the visited-fragment set across the merged nodes -/
+theorem subfields_keys_once (fuel : Nat) (ctx : Ctx) (rt : String) (nodes : List Selection) :
+    (collectSubfields fuel ctx rt nodes).keys.Nodup :=
+  collectSubfields_nodup fuel ctx rt nodes
+
+/-- appending a node to an existing key keeps the key's position and the order of its nodes
+    (document order inside a key) -/
+theorem add_existing_key_appends (acc : Collected) (k : String) (n : Selection) (nodes : List Selection)
+    (h : (k, nodes) ∈ acc) : (k, nodes ++ [n]) ∈ acc.add k n := by
+  unfold Collected.add
+  have hany : (acc.any fun p => p.1 == k) = true := by
+    simp only [List.any_eq_true]; exact ⟨(k, nodes), h, by simp⟩
+  simp only [hany, if_true, List.mem_map]
+  exact ⟨(k, nodes), h, by simp⟩
+
+/-- the object produced for a selection set lists exactly the collected fields defined on the
+    type — each once, in collection order (for every concurrency configuration, serial or not) -/
+theorem result_keys_are_collected_keys (n : Nat) (ctx : Ctx) (tn : String) (parent : PyVal) (path : List PathSeg)
+    (coll : Collected) (serial : Bool) (st : St) (kvs : List (String × PyVal))
+    (h : (run (n+1) ctx (.fields tn parent path coll serial) st).1 = .ok (.dict kvs)) :
+    kvs.map (·.1) = (fieldJobs ctx.S tn coll).map (·.1) := by
+  simp only [run] at h
+  exact executeFields_keys _ _ _ _ _ _ _ _ _ _ h
+
+/-- Resolving one field calls its resolver exactly once — with the parent's value, the response
+    path, and the coerced argument dictionary — when the arguments coerce, and not at all when they
+    do not (or when the field has no resolver: the default resolver is not user code). -/
+theorem resolver_called_once_with_parent_and_args (fuel : Nat) (ctx : Ctx) (tn : String) (fd : FieldDef) (parent : PyVal)
+    (nodes : List Selection) (path : List PathSeg) (st : St) (hname : (fd.name == "__typename") = false) :
+    (∀ args, coerceArguments fuel ctx.S ctx.o fd.args nodes.head!.floc nodes.head!.fargs ctx.vars = .ok args →
+      (resolveValue fuel ctx tn fd parent nodes path st).2.calls =
+        st.calls ++ (match resolverOf ctx.env (tn ++ "." ++ fd.name) with
+                     | .default => []
+                     | _ => [⟨tn ++ "." ++ fd.name, path, parent, args⟩])) ∧
+    (∀ errs, coerceArguments fuel ctx.S ctx.o fd.args nodes.head!.floc nodes.head!.fargs ctx.vars = .error errs →
+      (resolveValue fuel ctx tn fd parent nodes path st).2.calls = st.calls) := by
+  refine ⟨?_, ?_⟩
+  · intro args h
+    simp only [resolveValue, h, hname]
+    cases resolverOf ctx.env (tn ++ "." ++ fd.name) <;> simp [logCall]
+  · intro errs h
+    simp [resolveValue, h]
+
+/-- a field without resolver reads the same-named attribute, else the same-named key, else null -/
+theorem default_resolver_reads_attribute_or_key (name : String) :
+    (∀ cls attrs, defaultResolve (.obj cls attrs) name = (lookupKV name attrs).getD .none) ∧
+    (∀ kvs, dictMethodNames.contains name = false → defaultResolve (.dict kvs) name = (lookupKV name kvs).getD .none) := by
+  refine ⟨fun _ _ => rfl, ?_⟩
+  intro kvs h
+  have h' : name ∉ dictMethodNames := by
+    intro hm; have : dictMethodNames.contains name = true := by simpa using hm
+    rw [h] at this; cases this
+  simp [defaultResolve, h']
+
+/-- the most specific type resolver decides the runtime type of an abstract result:
+    field level, then type level, then the engine's default -/
+theorem most_specific_type_resolver_wins (ctx : Ctx) (pt fn at' : String) (v : PyVal) (spec : TypeResolverSpec)
+    (h : ctx.env.fieldTypeResolvers.find? (fun p => p.1 == pt ++ "." ++ fn) = some (pt ++ "." ++ fn, spec)) :
+    resolveTypeName ctx pt fn at' v =
+      (match spec with
+       | .const n => .str n
+       | .key k => (match v with | .dict kvs => (lookupKV k kvs).getD (.str "?") | _ => .str "?")) := by
+  unfold resolveTypeName
+  simp only [h]
+  cases spec <;> rfl
+
+/-- …and without a field-level one, the type-level resolver (if any) is used before the default -/
+theorem type_level_resolver_before_default (ctx : Ctx) (pt fn at' : String) (v : PyVal)
+    (h1 : ctx.env.fieldTypeResolvers.find? (fun p => p.1 == pt ++ "." ++ fn) = none)
+    (h2 : ctx.env.typeResolvers.find? (fun p => p.1 == at') = none) :
+    resolveTypeName ctx pt fn at' v = defaultTypeName v := by
+  unfold resolveTypeName
+  simp [h1, h2]
+
+/-- the three ways of naming the runtime type recognised by the default type resolver -/
+example : defaultTypeName (.dict [("_typename", .str "Dog")]) = .str "Dog" := rfl
+example : defaultTypeName (.obj "Row" [("_typename", .str "Dog")]) = .str "Dog" := rfl
+example : defaultTypeName (.obj "Dog" []) = .str "Dog" := rfl
+
 end Tart.C01
